@@ -40,7 +40,8 @@ def _cfg(tier):
                select="any", desc=("entity", "set_of"), value_terms_in_select=True, force_relate=True,
                dom_kinds=("list", "list", "tuple"), avoid=frozenset(avoid), kw_vars=(1, 6),
                extra_templates=("indep_and_or3", "indep_and_or3", "indep_and_join3", "indep_and_join3",
-                                "and_left_or_then_other", "and_left_or_then_other"), earlier_sharing=(1, 5))
+                                "and_left_or_then_other", "and_left_or_then_other", "value_equal_join",
+                                "value_equal_join", "value_equal_join"), earlier_sharing=(1, 5), clones=(1, 3))
 
 
 def strategy(tier):
